@@ -1,5 +1,6 @@
 import BindgenModel.Driver.C03
 import BindgenModel.Driver.C07
+import BindgenModel.Driver.C08
 /-! `bgmodel`: one request per input line, one answer per output line (lines between `ir-begin`
 and `ir-end` load an IR dump and produce no output). -/
 open BindgenModel
@@ -16,6 +17,7 @@ def dispatch (st : St) (line : String) : St × Option String :=
   else
   match (line.splitOn " ").filter (· ≠ "") with
   | "bf" :: rest => (st, some (Driver.C03.handle rest))
+  | ["irderives"] => (st, some (Driver.C08.derives st.ir))
   | ["irchk", seed] => (st, some (Driver.C07.check st.ir (seed.toNat?.getD 0)))
   | _ => (st, some "bad-op")
 
